@@ -589,4 +589,107 @@ theorem run_sized {n m : Nat} {P : Problem α} (hP : ProblemSized n m P) (dir : 
       · exact hc
     exact mainLoop_sized hP dir d0 hD pr stop oot x0 y Sig errz0 hx0 hy hS he _ s hi (Or.inl hid) hf0 hfuel
 
+/-! ### every iteration of a run: the loop heads at which `iterBody` runs -/
+
+/-- The direction the direction stage hands to the line search: whenever an accelerated step is on
+    offer (`τ_init ≠ 0`) it is what a *successful* `apply` left in `q`, called on the state
+    `initialize` returned (iteration 0) or on the current provider state, with the current iterate's
+    `γ, x, x̂, p, ∇ψ(x)`. -/
+theorem directionStage_offer (dir : Direction D α) (s : St α D)
+    (hne : (directionStage dir s).2.2.2.1 ≠ 0) :
+    (dir.apply (if s.k == 0 then
+        (dir.init s.d s.curr.gamma s.curr.x s.curr.xhat s.curr.p s.curr.gradPsi, s.tick + 1)
+        else (s.d, s.tick)).1 s.curr.gamma s.curr.x s.curr.xhat s.curr.p s.curr.gradPsi s.q).2.1 = true ∧
+    (directionStage dir s).2.2.1 =
+      (dir.apply (if s.k == 0 then
+        (dir.init s.d s.curr.gamma s.curr.x s.curr.xhat s.curr.p s.curr.gradPsi, s.tick + 1)
+        else (s.d, s.tick)).1 s.curr.gamma s.curr.x s.curr.xhat s.curr.p s.curr.gradPsi s.q).2.2 := by
+  revert hne
+  unfold directionStage
+  simp only []
+  split_ifs with h2 h3 h4 h5 <;> simp only [] <;> intro hne
+  all_goals first
+    | exact absurd rfl hne
+    | (refine ⟨?_, rfl⟩
+       by_contra hc
+       simp_all)
+    | simp_all
+
+/-- The loop states on which `iterBody` runs during `mainLoop` (the `Busy` heads, after the head's
+    own evaluations), in order. -/
+def busyHeads (P : Problem α) (dir : Direction D α) (pr : Params α) (stop : Nat → Bool) (oot : Bool) :
+    Nat → St α D → List (St α D)
+  | 0, _ => []
+  | fuel + 1, s =>
+    if (headStep P pr stop oot s).2.2 != .Busy then []
+    else (headStep P pr stop oot s).1 ::
+      busyHeads P dir pr stop oot fuel
+        (iterBody P dir pr stop (headStep P pr stop oot s).1 (headStep P pr stop oot s).2.1)
+
+/-- … of a whole solve. -/
+def runHeads (P : Problem α) (dir : Direction D α) (d0 : D) (pr : Params α) (stop : Nat → Bool)
+    (oot : Bool) (x0 gV : Vec α) (gS iS : α) : List (St α D) :=
+  match initState P d0 pr stop x0 gV gS iS with
+  | .inl _ => []
+  | .inr s => busyHeads P dir pr stop oot (pr.maxIter + 2) s
+
+/-- **At every iteration of the main loop** the current iterate is well sized and the provider state
+    is the initial one (iteration 0 only) or reachable — so every provider call of the run is made
+    from a `DirReach` state with `n`-sized vectors (`iterBody_reach`). -/
+theorem busyHeads_ok {n m : Nat} {P : Problem α} (hP : ProblemSized n m P) (dir : Direction D α)
+    (d0 : D) (hD : DirSized n dir d0) (pr : Params α) (stop : Nat → Bool) (oot : Bool)
+    (x0 y Sig errz0 : Vec α) (fuel : Nat) (s : St α D) (h : Sized n m s.curr)
+    (hd : DirOK n dir d0 s.k s.d) (hf : s.fuelOut = false)
+    (hr : (mainLoop P dir pr stop oot x0 y Sig errz0 fuel s).fuelOut = false) :
+    ∀ s' ∈ busyHeads P dir pr stop oot fuel s, Sized n m s'.curr ∧ DirOK n dir d0 s'.k s'.d := by
+  induction fuel generalizing s with
+  | zero => intro s' hs'; simp [busyHeads] at hs'
+  | succ f ih =>
+    unfold mainLoop at hr
+    unfold busyHeads
+    simp only [] at hr ⊢
+    have hh := headStep_sized hP pr stop oot s h
+    have hfh : (headStep P pr stop oot s).1.fuelOut = false := by rw [headStep_fuelOut]; exact hf
+    have hdh : DirOK n dir d0 (headStep P pr stop oot s).1.k (headStep P pr stop oot s).1.d := by
+      rw [(headStep_d P pr stop oot s).1, (headStep_d P pr stop oot s).2]; exact hd
+    split_ifs at hr ⊢ with hb
+    · intro s' hs'; simp at hs'
+    · have hf2 : (iterBody P dir pr stop (headStep P pr stop oot s).1 (headStep P pr stop oot s).2.1).fuelOut
+          = false := by
+        rcases Bool.eq_false_or_eq_true
+          (iterBody P dir pr stop (headStep P pr stop oot s).1 (headStep P pr stop oot s).2.1).fuelOut
+          with hc | hc
+        · have := mainLoop_fuelOut_mono P dir pr stop oot x0 y Sig errz0 f _ hc
+          rw [this] at hr; exact absurd hr (by decide)
+        · exact hc
+      have hls : (iterLs P dir pr stop (headStep P pr stop oot s).1).fuelOut = false := by
+        rw [iterBody_fuelOut, hfh] at hf2; simpa using hf2
+      intro s' hs'
+      rcases List.mem_cons.mp hs' with rfl | hs'
+      · exact ⟨hh, hdh⟩
+      · exact ih _ (iterBody_sized hP dir d0 hD pr stop _ _ hh hdh hls).1
+          (Or.inr (iterBody_reach hP dir d0 hD pr stop _ _ hh hdh hls)) hf2 hr s' hs'
+
+theorem runHeads_ok {n m : Nat} {P : Problem α} (hP : ProblemSized n m P) (dir : Direction D α)
+    (d0 : D) (hD : DirSized n dir d0) (pr : Params α) (stop : Nat → Bool) (oot : Bool)
+    (x0 y Sig errz0 gV : Vec α) (gS iS : α) (hx0 : x0.length = n)
+    (hfuel : (run P dir d0 pr stop oot x0 y Sig errz0 gV gS iS).fuelOut = false) :
+    ∀ s' ∈ runHeads P dir d0 pr stop oot x0 gV gS iS,
+      Sized n m s'.curr ∧ DirOK n dir d0 s'.k s'.d := by
+  have hi := initState_sized hP d0 pr stop x0 gV gS iS hx0
+  have hid := initState_d P d0 pr stop x0 gV gS iS
+  unfold run at hfuel
+  unfold runHeads
+  cases hs : initState P d0 pr stop x0 gV gS iS with
+  | inl t => intro s' hs'; simp at hs'
+  | inr s =>
+    rw [hs] at hi hid
+    simp only [hs] at hfuel ⊢
+    have hf0 : s.fuelOut = false := by
+      rcases Bool.eq_false_or_eq_true s.fuelOut with hc | hc
+      · have := mainLoop_fuelOut_mono P dir pr stop oot x0 y Sig errz0 (pr.maxIter + 2) s hc
+        rw [this] at hfuel; exact absurd hfuel (by decide)
+      · exact hc
+    exact busyHeads_ok hP dir d0 hD pr stop oot x0 y Sig errz0 _ s hi (Or.inl hid) hf0 hfuel
+
 end Alpaqa.Panoc
